@@ -288,7 +288,7 @@ fn check_requested_predicate<'a>(
                 .ok_or_else(|| err_msg!("Unable to get credential proof for index {}", index))?;
 
             let matches_cl_proof_predicate = proof.sub_proof.predicates().into_iter().find(|p| {
-                p.attr_name == name
+                attr_common_view(&p.attr_name) == attr_common_view(&name)
                     && p.p_type == predicate.clone().p_type.into()
                     && p.value == predicate.p_value
             });
